@@ -84,6 +84,8 @@ const (
 	FMultiService = "multi_service"
 	FNameShapes   = "name_shapes"
 	FSharedPath   = "shared_path_across_verbs"
+	FSharedReq    = "request_message_shared_by_two_methods"
+	FTrailingSlash = "path_with_trailing_slash"
 	FInt64Number  = "ann_int64_number"
 	FEnumValue    = "ann_enum_value"
 	FEnumNumber   = "ann_enum_number"
@@ -111,7 +113,7 @@ const (
 )
 
 var SafeFeatures = []string{FBasePath, FPathVars, FQuery, FQueryOnBody, FHeadersSvc, FHeadersMeth, FHeaderOverride, FNested, FRecursive,
-	FEnum, FMap, FOneof, FOptional, FRepeated, FTimestamp, FBytes, FRules, FCustomError, FAllKinds, FMultiService, FNameShapes, FSharedPath}
+	FEnum, FMap, FOneof, FOptional, FRepeated, FTimestamp, FBytes, FRules, FCustomError, FAllKinds, FMultiService, FNameShapes, FSharedPath, FSharedReq}
 
 var AnnotationFeatures = []string{FInt64Number, FEnumValue, FEnumNumber, FNullable, FEmptyBehav, FTsFormat, FBytesEnc, FFlatten, FOneofDisc, FUnwrap}
 
@@ -140,6 +142,7 @@ type g struct {
 	usedHdrM map[string]bool
 	svcHdr   map[string]*spec.Header
 	lastMethHdr map[string]string
+	sharedReqDone map[string]bool
 	prevPath    map[string]*sharedPath // per service: last explicit path and its variables
 }
 
@@ -309,6 +312,13 @@ func (x *g) sharedTypes() {
 		}
 		x.f.Messages = append(x.f.Messages, it)
 		other := &spec.Message{Name: "Other", Fields: []*spec.Field{{Name: "text", Number: 1, Kind: "string"}, {Name: "num", Number: 2, Kind: "int32"}}}
+		if x.has(FOptional) {
+			other.Fields = append(other.Fields, &spec.Field{Name: "memo", Number: 3, Kind: "string", Card: "optional"})
+		}
+		if x.has(FExamples) {
+			it.Fields[0].Examples = []string{"widget", "gadget"}
+			other.Fields[0].Examples = []string{"lorem", "ipsum", "dolor"}
+		}
 		x.f.Messages = append(x.f.Messages, other)
 		// a message whose fields are all singular messages, two levels deep
 		x.f.Messages = append(x.f.Messages,
@@ -588,7 +598,7 @@ func (x *g) method(s *spec.Service, name string, idx int, usedRoutes map[string]
 	if x.has(FPathVars) && m.HasConfig && !x.has(RVerbOnly) {
 		nVars = x.r.intn(4)
 	}
-	if shared != nil {
+	if shared != nil || x.has(FTrailingSlash) {
 		nVars = 0
 	}
 	if x.has(RPathQueryTS) || x.has(RPathVarDigit) {
@@ -646,6 +656,18 @@ func (x *g) method(s *spec.Service, name string, idx int, usedRoutes map[string]
 			bpth = *s.BasePath
 		}
 		x.routes = append(x.routes, route{verb, segsOf(spec.JoinPath(bpth, m.Path))})
+	} else if x.has(FTrailingSlash) && m.HasConfig {
+		// full paths ending in "/": "<base>/<name>/" and, for the first method, "/" under the base path
+		p := "/" + base + "/"
+		if idx == 0 && s.BasePath != nil {
+			p = "/"
+		}
+		bpre3 := ""
+		if s.BasePath != nil {
+			bpre3 = *s.BasePath
+		}
+		x.routes = append(x.routes, route{verb, segsOf(spec.JoinPath(bpre3, p))})
+		m.Path = p
 	} else if m.HasConfig && !x.has(RVerbOnly) {
 		p := strings.Join(segs, "/")
 		if !x.has(RPathNoSlash) {
@@ -802,6 +824,34 @@ func (x *g) method(s *spec.Service, name string, idx int, usedRoutes map[string]
 	}
 	m.In, m.Out = x.fq(reqName), x.fq(respName)
 	x.f.Messages = append(x.f.Messages, req, resp)
+	// a second method on the same request message with ANOTHER set of path variables
+	// (e.g. POST /shelves/{shelf}/items and PUT /shelves/{shelf}/items/{id} both taking Item)
+	if x.has(FSharedReq) && !bodyless && shared == nil && len(vars) >= 1 && !x.sharedReqDone[s.Name] && m.HasConfig && m.Path != "" {
+		if x.sharedReqDone == nil {
+			x.sharedReqDone = map[string]bool{}
+		}
+		x.sharedReqDone[s.Name] = true
+		m2 := &spec.Method{Name: name + "Again", In: m.In, Out: m.Out, HasConfig: true, Verb: "PUT"}
+		if verb == "PUT" {
+			m2.Verb = "PATCH"
+		}
+		// drop the last path variable from the template (it then travels in the body)
+		p2 := "/" + base + "again"
+		for _, v := range vars[:len(vars)-1] {
+			p2 += "/{" + v + "}"
+		}
+		bpre2 := ""
+		if s.BasePath != nil {
+			bpre2 = *s.BasePath
+		}
+		for x.conflicts(m2.Verb, segsOf(spec.JoinPath(bpre2, p2))) {
+			p2 += "/z"
+		}
+		x.routes = append(x.routes, route{m2.Verb, segsOf(spec.JoinPath(bpre2, p2))})
+		m2.Path = p2
+		m2.Headers = m.Headers
+		defer func() { s.Methods = append(s.Methods, m2) }()
+	}
 	if len(x.annMsgs) > 0 {
 		// annotated type in top-level position (where the custom codec is what the server and client call)
 		if x.r.chance(1, 3) && !x.cfg.MockSafe {
@@ -912,6 +962,14 @@ func (x *g) annotatedTypes() {
 			{Name: "id", Number: 1, Kind: "string"},
 			{Name: "text_v", Number: 2, Kind: "message", TypeName: x.fq("Other"), Oneof: "body", OneofValue: sp("text")},
 			{Name: "item_v", Number: 3, Kind: "message", TypeName: x.fq("Item"), Oneof: "body", OneofValue: sp("item")}}})
+	}
+	if x.has(FOneofDisc) {
+		add(&spec.Message{Name: "AnnDisc2", Oneofs: []*spec.Oneof{{Name: "geometry", HasConfig: true, Discriminator: "shape", Flatten: true}, {Name: "style", HasConfig: true, Discriminator: "look"}}, Fields: []*spec.Field{
+			{Name: "id", Number: 1, Kind: "string"},
+			{Name: "circle", Number: 2, Kind: "message", TypeName: x.fq("Other"), Oneof: "geometry", OneofValue: sp("circle")},
+			{Name: "box", Number: 3, Kind: "message", TypeName: x.fq("Item"), Oneof: "geometry", OneofValue: sp("box")},
+			{Name: "plain_style", Number: 4, Kind: "message", TypeName: x.fq("Other"), Oneof: "style"},
+			{Name: "fancy_style", Number: 5, Kind: "message", TypeName: x.fq("Item"), Oneof: "style"}}})
 	}
 	if x.has(FUnwrap) {
 		// map-value unwrap: a wrapper with one unwrapped repeated field, used as a map value
